@@ -316,6 +316,30 @@ theorem close_last (L : Laws K) (env : Env K) (child : Child) (hfresh : ∀ c, e
   · exact ⟨P, h2, hcomp, by rw [← hfed]; exact h3⟩
   · exact absurd hcl h1
 
+/-- **send_after_half_close** (tunnel level).  The peer's TCP close puts the tunnel into CLOSED (first part) — and CLOSED
+    does not stop the outbound direction: when the child then answers an event with SendData, `_handle_command` still hands
+    the payload to the engine and forwards everything it produces; the peer's reading of the emitted ciphertext is the
+    accepted payloads including this one (for whole histories this is `peer_stream_exact`, which quantifies over histories
+    with closes anywhere). -/
+theorem send_after_half_close (L : Laws K) (env : Env K) (child : Child) (s t : St K) (c : K.σ) (n : Nat) (d : Bytes)
+    (hst : t.st = .closed) (he : t.errored = false) (htls : t.tls = some c)
+    (hchild : child t.toChild (.other n) = [.send d])
+    (hup : cipherOf t.up = L.emitted c) (hacc : t.accepted = L.sent c) :
+    (handle env child s .closeEv).st = .closed
+    ∧ (handle env child t (.other n)).accepted = t.accepted ++ (if (K.send c d).1 then d else [])
+    ∧ L.enc (cipherOf (handle env child t (.other n)).up) = (handle env child t (.other n)).accepted := by
+  refine ⟨by simp [handle], ?_⟩
+  have hq : queueing (addRouted t (.other n)) = false := by simp [queueing, hst, isEst]
+  have hstep : handle env child t (.other n)
+      = handleCmd ({ addRouted t (.other n) with toChild := t.toChild ++ [.other n] } : St K) (.send d) := by
+    simp only [handle, eventToChild, etcCore]
+    rw [if_neg (by simp [he]), hq]
+    simp only [Bool.false_eq_true, if_false, deliver, addRouted_toChild, hchild, handleCmds, List.foldl_cons, List.foldl_nil]
+  rw [hstep]
+  obtain ⟨c', _, _, _, h4, h5⟩ := client_receives_exactly L
+    ({ addRouted t (.other n) with toChild := t.toChild ++ [.other n] } : St K) c d htls hup hacc
+  exact ⟨h5, h4⟩
+
 /-! ### non-vacuity: the law is satisfiable (a pass-through engine), and the theorems apply to it -/
 
 private structure IdS where
